@@ -26,9 +26,69 @@ fn load(req: &json::JsonValue) -> json::JsonValue {
     out
 }
 
+// compile with the x86-64 JIT / Cranelift and return what the hooks recorded (no execution)
+#[cfg(rbpf_verif)]
+fn compile(req: &json::JsonValue) -> json::JsonValue {
+    let prog: &'static [u8] = Box::leak(unhex(req["prog"].as_str().unwrap_or("")).into_boxed_slice());
+    let vmk = req["vm"].as_str().unwrap_or("mbuff").to_string();
+    let engine = req["engine"].as_str().unwrap_or("jit").to_string();
+    let novf = req["verifier"].as_str().unwrap_or("default") == "none";
+    fn accept_all(_p: &[u8]) -> Result<(), std::io::Error> { Ok(()) }
+    let mut out = json::object! {};
+    let mut haddr = json::JsonValue::new_array();
+    for h in req["helpers"].members() { let _ = haddr.push(json::array![h[0].as_u32().unwrap(), format!("{}", crate::helper_by_kind(h[1].as_str().unwrap()) as usize)]); }
+    out["helper_addrs"] = haddr;
+    let r = panic::catch_unwind(panic::AssertUnwindSafe(|| -> Result<(), String> {
+        macro_rules! go { ($ty:ident $(, $extra:expr)*) => {{
+            let mut vm = if novf { let mut vm = rbpf::$ty::new(None $(, $extra)*).map_err(|e| format!("new: {e}"))?; vm.set_verifier(accept_all).map_err(|e| e.to_string())?; vm.set_program(prog $(, $extra)*).map_err(|e| format!("load: {e}"))?; vm }
+                         else { rbpf::$ty::new(Some(prog) $(, $extra)*).map_err(|e| format!("load: {e}"))? };
+            for h in req["helpers"].members() { vm.register_helper(h[0].as_u32().unwrap(), crate::helper_by_kind(h[1].as_str().unwrap())).map_err(|e| e.to_string())?; }
+            if engine == "jit" { vm.jit_compile().map_err(|e| format!("compile: {e}"))?; }
+            #[cfg(feature = "cranelift")]
+            if engine == "cranelift" { vm.cranelift_compile().map_err(|e| format!("compile: {e}"))?; }
+            Ok(())
+        }} }
+        match vmk.as_str() {
+            "mbuff" => go!(EbpfVmMbuff), "raw" => go!(EbpfVmRaw), "nodata" => go!(EbpfVmNoData),
+            "fixed" => go!(EbpfVmFixedMbuff, req["fixed"][0].as_usize().unwrap_or(0), req["fixed"][1].as_usize().unwrap_or(8)),
+            _ => Err("vm kind".into()),
+        }
+    }));
+    match r {
+        Err(p) => { out["status"] = "panic".into(); out["msg"] = pmsg(p).into(); }
+        Ok(Err(m)) => { out["status"] = "err".into(); out["msg"] = m.into(); }
+        Ok(Ok(())) => {
+            out["status"] = "ok".into();
+            if engine == "jit" {
+                if let Some((code, locs, base)) = rbpf::verif::last_jit() {
+                    out["code"] = code.iter().map(|x| format!("{:02x}", x)).collect::<String>().into();
+                    out["pc_locs"] = json::JsonValue::Array(locs.iter().map(|x| (*x).into()).collect());
+                    out["base"] = format!("{}", base).into();
+                }
+            } else if let Some((text, hs)) = rbpf::verif::last_clif() {
+                out["clif"] = text.into();
+                out["helper_refs"] = json::JsonValue::Array(hs.iter().map(|(k, r)| json::array![*k, r.as_str()]).collect());
+            }
+        }
+    }
+    out
+}
+#[cfg(not(rbpf_verif))]
+fn compile(_req: &json::JsonValue) -> json::JsonValue { json::object! { "status": "no_hooks" } }
+
+#[cfg(rbpf_verif)]
+fn asm_table(_req: &json::JsonValue) -> json::JsonValue {
+    let t = rbpf::assembler::verif_instruction_table();
+    json::object! { "status": "ok", "table": json::JsonValue::Array(t.iter().map(|(n, k, o)| json::array![n.as_str(), k.as_str(), *o]).collect()) }
+}
+#[cfg(not(rbpf_verif))]
+fn asm_table(_req: &json::JsonValue) -> json::JsonValue { json::object! { "status": "no_hooks" } }
+
 pub fn dispatch(op: &str, req: &json::JsonValue) -> json::JsonValue {
     match op {
         "load" => load(req),
+        "compile" => compile(req),
+        "asm_table" => asm_table(req),
         _ => json::object! { "status": "unknown_op", "op": op },
     }
 }
